@@ -45,6 +45,7 @@ type peerEnd struct {
 	eofSeen int32
 	stall   int32         // the peer stops reading (set by the harness)
 	parked  int32         // ... and is now waiting to be resumed
+	nread   int32         // messages its Receive has returned so far
 	resume  chan struct{} // closed to let it read again
 }
 
@@ -110,6 +111,7 @@ type renv struct {
 	connMu       sync.Mutex // e.conns and connRec.our, read by the sampler in the Stop goroutine
 	sampleOnce   sync.Once
 	openRet      []bool
+	lmStuck      int32        // a call that needs the in-memory manager's lock did not come back
 	unheldSend   map[int]bool // sends whose hold could not be established (they ran as plain sends)
 	lastUnheld   bool         // set by the macro that has just run
 	exemptRet    []bool
@@ -145,7 +147,7 @@ func (e *renv) sampleAtReturn() {
 		for _, c := range e.conns {
 			open := false // no endpoint object of the router is known: it never accepted this one
 			if c.our != nil {
-				if closed, known := network.VerifConnClosed(c.our); known {
+				if closed, known := e.connClosed(c.our); known {
 					open = !closed
 				}
 			}
@@ -153,6 +155,35 @@ func (e *renv) sampleAtReturn() {
 			e.exemptRet = append(e.exemptRet, atomic.LoadInt32(&c.preTest) == 1)
 		}
 	})
+}
+
+// connClosed reads the closed flag of an endpoint object. For an in-memory connection that takes
+// the LocalManager's lock, which a Close that hangs keeps for ever: the call is bounded, and once
+// it has not come back the manager is taken for stuck (known = false from then on).
+func (e *renv) connClosed(c network.Conn) (closed bool, known bool) {
+	if c == nil {
+		return false, false
+	}
+	if e.tcp {
+		return network.VerifConnClosed(c)
+	}
+	if atomic.LoadInt32(&e.lmStuck) == 1 {
+		return false, false
+	}
+	type res struct{ closed, known bool }
+	ch := make(chan res, 1)
+	go func() {
+		a, b := network.VerifConnClosed(c)
+		ch <- res{a, b}
+	}()
+	select {
+	case r := <-ch:
+		return r.closed, r.known
+	case <-time.After(opDeadline):
+		noteMiss("in-memory manager's lock")
+		atomic.StoreInt32(&e.lmStuck, 1)
+		return false, false
+	}
 }
 
 // negotiatingHas reports whether the router's Listen callback for c has passed its first
@@ -204,7 +235,7 @@ func routerKnows(r *network.Router, c network.Conn) bool {
 // refused and closed. Established by observation only; the fall-back for a router without the
 // negotiating table is the callback's goroutine sitting in receiveServerIdentity.
 func (e *renv) callbackSettled(c network.Conn) bool {
-	if closed, known := network.VerifConnClosed(c); known && closed {
+	if closed, known := e.connClosed(c); known && closed {
 		return true
 	}
 	if f := reflect.ValueOf(e.r).Elem().FieldByName("negotiating"); f.IsValid() && f.Kind() == reflect.Map {
@@ -383,6 +414,7 @@ func (pe *peerEnd) readLoop() {
 			close(pe.eof)
 			return
 		}
+		atomic.AddInt32(&pe.nread, 1)
 		if first && env.MsgType.Equal(network.ServerIdentityType) {
 			close(pe.gotID)
 		}
@@ -721,7 +753,7 @@ func (e *renv) runMacro(m mac, seqNo int) error {
 					return true
 				default:
 				}
-				closed, _ := network.VerifConnClosed(rec.our)
+				closed, _ := e.connClosed(rec.our)
 				return closed
 			})
 		}
@@ -752,7 +784,7 @@ func (e *renv) runMacro(m mac, seqNo int) error {
 		}
 		e.mu.Unlock()
 		live := rec.our != nil && e.r.VerifRegistered(rec.our) && !e.r.Closed()
-		if closed, known := network.VerifConnClosed(rec.our); rec.our != nil && known && closed {
+		if closed, known := e.connClosed(rec.our); rec.our != nil && known && closed {
 			live = false
 		}
 		if rec.pe == nil {
@@ -803,7 +835,7 @@ func (e *renv) runMacro(m mac, seqNo int) error {
 		if rec := e.conns[m.A]; rec.peerClosed && rec.our != nil {
 			// the handler now sees the closed connection, ends and unregisters it
 			pollUntil(func() bool {
-				closed, _ := network.VerifConnClosed(rec.our)
+				closed, _ := e.connClosed(rec.our)
 				return closed && (!e.r.VerifRegistered(rec.our) || e.r.Closed())
 			})
 		}
@@ -871,7 +903,7 @@ func (e *renv) runMacro(m mac, seqNo int) error {
 			if !e.tcp && rec.our != nil {
 				deadline := time.Now().Add(opDeadline)
 				for time.Now().Before(deadline) {
-					if closed, _ := network.VerifConnClosed(rec.our); closed {
+					if closed, _ := e.connClosed(rec.our); closed {
 						break
 					}
 					time.Sleep(200 * time.Microsecond)
@@ -882,7 +914,7 @@ func (e *renv) runMacro(m mac, seqNo int) error {
 		// the router's handler sees EOF, closes its end and unregisters
 		if rec.our != nil {
 			pollUntil(func() bool {
-				closed, _ := network.VerifConnClosed(rec.our)
+				closed, _ := e.connClosed(rec.our)
 				if closed && (!e.r.VerifRegistered(rec.our) || e.r.Closed()) {
 					return true
 				}
@@ -941,7 +973,7 @@ func (e *renv) waitRegistered(rec *connRec) {
 		return
 	}
 	pollUntil(func() bool {
-		if closed, _ := network.VerifConnClosed(rec.our); closed {
+		if closed, _ := e.connClosed(rec.our); closed {
 			// refused (or already ended): the callback closes the connection right after its test
 			return true
 		}
@@ -1017,7 +1049,7 @@ func (e *renv) finish(msgConn map[int]int) robsJSON {
 		for _, c := range e.conns {
 			ourOpen := false
 			if c.our != nil {
-				if closed, known := network.VerifConnClosed(c.our); known && !closed {
+				if closed, known := e.connClosed(c.our); known && !closed {
 					ourOpen = true
 				}
 			}
@@ -1083,7 +1115,7 @@ func (e *renv) finish(msgConn map[int]int) robsJSON {
 func (e *renv) connOpen(c *connRec) bool {
 	peerSees := c.pe != nil && !c.peerClosed && atomic.LoadInt32(&c.pe.stall) == 0
 	if c.our != nil {
-		closed, known := network.VerifConnClosed(c.our)
+		closed, known := e.connClosed(c.our)
 		if known {
 			if !closed {
 				return true
@@ -1106,7 +1138,19 @@ func (e *renv) rebind() bool {
 		l.Close()
 		return true
 	}
-	return !e.lm.VerifLocalListening(e.r.ServerIdentity.Address)
+	if atomic.LoadInt32(&e.lmStuck) == 1 {
+		return false
+	}
+	ch := make(chan bool, 1)
+	go func() { ch <- !e.lm.VerifLocalListening(e.r.ServerIdentity.Address) }()
+	select {
+	case free := <-ch:
+		return free
+	case <-time.After(opDeadline):
+		noteMiss("in-memory manager's lock")
+		atomic.StoreInt32(&e.lmStuck, 1)
+		return false
+	}
 }
 
 // errSkip: the macro releases a hold that was never established; it is left out of the script
@@ -1153,7 +1197,16 @@ func (e *renv) cleanup() {
 			p.tcpL.Stop()
 		}
 		if p.locL != nil {
-			p.locL.Stop()
+			l := p.locL
+			done := make(chan struct{})
+			go func() {
+				defer close(done)
+				l.Stop()
+			}()
+			select {
+			case <-done:
+			case <-time.After(200 * time.Millisecond): // clean-up only
+			}
 		}
 	}
 }
